@@ -96,9 +96,12 @@ type Q struct {
 	Label     string // label of the last idle point
 }
 
+// OpenWatchdog bounds the wait for the first idle point after opening.
+var OpenWatchdog = 60 * time.Second
+
 // Open (re)opens the queue and waits until its loop is at rest.
 func Open(name, dir string, maxBytes, syncEvery int64) (*Q, error) {
-	q := &Q{Name: name, Dir: dir, MaxBytes: maxBytes, SyncEvery: syncEvery, Watchdog: 60 * time.Second}
+	q := &Q{Name: name, Dir: dir, MaxBytes: maxBytes, SyncEvery: syncEvery, Watchdog: OpenWatchdog}
 	s := H.Seq()
 	q.D = nsqd.NewDiskQueue(name, dir, maxBytes, syncEvery, time.Hour).(*nsqd.DiskQueue)
 	l, _, ok := H.WaitIdle(s, q.Watchdog)
